@@ -27,7 +27,7 @@ def main():
     rep = vlib.Report("C06")
     cov = {"states": 0, "transitions": 0, "traces_validated_against_impl": 0, "samples": [], "tlc_runs": []}
     sc = pipescen.scenarios()
-    names = ["valid5", "valid4", "valid3", "validLB", "validLC", "validT5", "validT8", "missing_E", "missing_C", "valid8"] + [n for n in sc if n.startswith("rule_") or n.startswith("rule8_")]
+    names = ["valid5", "valid4", "valid3", "validLB", "validLC", "validT5", "validT8", "valid24", "missing_E", "missing_C", "valid8"] + [n for n in sc if n.startswith("rule_") or n.startswith("rule8_")]
     names += ["lex_U", "syn_C", "dup_C"]
     if tier == "quick":
         names = [n for n in names if n not in ("rule8_E2", "rule8_S", "rule8_F", "valid4")]
